@@ -507,6 +507,45 @@ BATCHES = {
 }
 
 
+EXH_VOCAB = ["-a", "-b", "-ab", "-ba", "-a5", "-ba5", "--alpha", "--al", "--alpha=5", "--al=", "--beta", "-m", "--multi=1,2",
+             "5", "x", "7,8", "--", "-", "!", "(", "--nokey", "-v", "-vv", "--verbose"]
+EXH_CFGS = [
+    ["pa cfg begin abbr=1", "pa arg key=a,alpha kind=int", "pa arg key=b,beta kind=flag", "pa arg key=m,multi kind=vec multi",
+     "pa arg key=v,verbose kind=level", "pa cfg end"],
+    ["pa cfg begin abbr=0", "pa arg key=a,alpha kind=int mandatory check=lower:5", "pa arg key=b,beta kind=flag excl=a",
+     "pa arg key=m,multi kind=vec card=max:2 req=b", "pa arg key=v,verbose kind=level check=upper:2", "pa cfg end"],
+    ["pa cfg begin abbr=1", "pa arg key=a,alpha kind=str card=max:2", "pa arg key=b,beta kind=flag req=alpha",
+     "pa arg key=m,multi kind=vec multi card=exact:2", "pa arg key=v,verbose kind=level mix", "pa glob oneof a;m", "pa cfg end"],
+]
+
+
+def exhaustive_argv(prop, max_len):
+    """every argument vector of up to max_len words over a fixed vocabulary of key forms, values and odd words, for
+    three fixed configurations (evaluated singly; for C08 also through two group partitions in both orders)"""
+    import itertools
+    cases = []
+    for ci, cfg in enumerate(EXH_CFGS):
+        lines = list(cfg)
+        for n in range(0, max_len + 1):
+            for ws in itertools.product(EXH_VOCAB, repeat=n):
+                w = words_hex(ws)
+                if prop == "C04":
+                    lines.append("pa tokens " + w)
+                if prop == "C08":
+                    if ci == 2:
+                        continue        # the handler constraint spans two members there
+                    for mem, od in (("0101", "01"), ("0101", "10"), ("0011", "01")):
+                        lines.append("pa group x-lbl=exh members=%s order=%s -- %s" % (mem, od, w))
+                else:
+                    lines.append("pa eval x-lbl=exh -- " + w)
+                if len(lines) > 400:
+                    cases.append(Case("exh%d-%d" % (ci, len(cases)), lines))
+                    lines = list(cfg)
+        if len(lines) > len(cfg):
+            cases.append(Case("exh%d-%d" % (ci, len(cases)), lines))
+    return cases
+
+
 def generate(prop, tier, seed, scale=1):
     rng = random.Random("%s-%s" % (prop, seed))
     n = (600 if tier == "quick" else 100000) * scale
@@ -519,6 +558,10 @@ def generate(prop, tier, seed, scale=1):
         if c is not None and len(c.lines) > 2:
             cases.append(c)
     yield "generated", cases
+    if prop in ("C01", "C02", "C03", "C04", "C08"):
+        n = 2 if tier == "quick" else 3
+        yield "exhaustive argv of <= %d words over a %d-word vocabulary x 3 configurations" % (n, len(EXH_VOCAB)), \
+            exhaustive_argv(prop, n)
 
 
 def annotation(line, key):
